@@ -243,17 +243,7 @@ def broadcast_rule(ctx):
                         r.ok(f"{f.qualname}: {norm_text(n)}")
                     else:
                         r.fail(f.qualname, f"broadcast:{a0.id}", f.file, n.lineno, f.name, f"matrix coefficient `{a0.id}` is broadcast without tensor_ndim=2: {norm_text(n)}")
-    # broadcast branch table
-    fb = repo.cls(f"{LA}.FeArray").methods["broadcast"]
-    r.instance(fn=fb.qualname)
-    leads = []
-    for n in ast.walk(fb.node):
-        if isinstance(n, ast.Compare) and isinstance(n.left, ast.Name) and n.left.id == "lead":
-            leads.append(norm_text(n.comparators[0]))
-    if sorted(leads) == sorted(["(Ne, nPg)", "(Ne,)", "()"]):
-        r.ok("FeArray.broadcast(tensor_ndim>0) accepts exactly the leading shapes (), (Ne,), (Ne, nPg)")
-    else:
-        r.fail(fb.qualname, "lead-table", fb.file, fb.lineno, "FeArray.broadcast", f"leading-shape table is {leads}")
+    # (the decision table of FeArray.broadcast itself is decided by interpretation in R12.7)
 
 
 def fe_axis_drop(ctx):
